@@ -1,6 +1,6 @@
 """C13 — idle tunnels are closed after the configured timeout, and only then."""
 import harness
-from specs import timeouts
+from specs import timeouts, relay
 
 
 def run(ck):
@@ -19,4 +19,8 @@ def run(ck):
     timeouts.spec_main_wiring(ck)
     timeouts.spec_timeouts_section(ck)
     timeouts.spec_copy_bidi_tick(ck)
+    # a direction that is carrying data shows it: the buffered relay loop refreshes the direction's activity stamp for every chunk
+    # before it waits for the source again (otherwise a saturated one-way transfer looks idle to the ticker)
+    ck.plans.append(relay.relay_replay_plan)
+    relay.check_copy_half(ck, max_turns=2)
     ck.post_filter = lambda o: o.label.startswith('C13/') or o.status in ('undecided', 'vacuous', 'inconclusive')
